@@ -17,7 +17,7 @@ use std::{
     sync::atomic::{AtomicU64, Ordering},
 };
 
-use parking_lot::RwLock;
+use crate::sync_compat::RwLock;
 use rustc_hash::FxHasher;
 use serde::{Deserialize, Serialize};
 
